@@ -101,7 +101,7 @@ func failTimed(h *history, format string, a ...any) verdict {
 	return v
 }
 
-func writeFileMode(path string, data []byte, mode uint32) error {
+func writeFileMode(path string, data []byte, mode Mode) error {
 	if err := os.WriteFile(path, data, 0o600); err != nil {
 		return err
 	}
@@ -337,7 +337,7 @@ func runOnce(c C18Case) verdict {
 			if err := writeFileMode(dst, data, p.Mode); err != nil {
 				return infra("%v", err)
 			}
-		} else if err := install(dst, p.Mode); err != nil {
+		} else if err := install(dst, uint32(p.Mode)); err != nil {
 			return infra("installing probe: %v", err)
 		}
 		canExec[p.File()] = syscall.Access(dst, 1 /* X_OK */) == nil
@@ -360,7 +360,7 @@ func runOnce(c C18Case) verdict {
 		case "file":
 			switch e.Content {
 			case "probe":
-				if err := install(dst, e.Mode); err != nil {
+				if err := install(dst, uint32(e.Mode)); err != nil {
 					return infra("installing non-executable probe copy: %v", err)
 				}
 			case "empty":
